@@ -684,7 +684,7 @@ Section Run.
         match cs with
         | [] => '(en1, buf1, stop) <- scoped def ((x, v) :: en) buf ;; Ok (truncate (List.length en) en1, buf1, stop)
         | (tys, body) :: r =>
-          if existsb (String.eqb (dyn_type v)) tys
+          if existsb (String.eqb (dyn_type v)) tys || existsb (fun t => implements t (dyn_type v)) tys
           then '(en1, buf1, stop) <- scoped body ((x, v) :: en) buf ;; Ok (truncate (List.length en) en1, buf1, stop)
           else pick r
         end in
